@@ -200,8 +200,13 @@ func (en *Engine) external(st *State, fr *Frame, x *ssa.Call, name string, calle
 			st.treeEpoch++
 		}
 	default:
-		// unmodelled external: it can reach a tree only through a pointer-carrying argument
-		for _, a := range args {
+		// unmodelled external: it can reach a tree only through a pointer-carrying argument. The receiver of a method
+		// called on an interface value that sits in a field of a parameter (an observer or store the application plugged
+		// in before the call) cannot reach a tree built during the call
+		for i, a := range args {
+			if i == 0 && x.Common().IsInvoke() && pluginRecv(a) {
+				continue
+			}
 			if a == nil || mayPointTo(a.Type()) {
 				st.treeEpoch++
 				break
@@ -694,4 +699,18 @@ func freshSliceFrom(v Val) (*AllocV, int64, bool) {
 		}
 	}
 	return nil, 0, false
+}
+
+// pluginRecv: an interface value loaded from a field of a parameter object (sp.Observer).
+func pluginRecv(v Val) bool {
+	l, ok := v.(*LoadV)
+	if !ok || !isIfaceType(l.Type()) {
+		return false
+	}
+	fa, ok := l.Addr.(*FieldAddrV)
+	if !ok {
+		return false
+	}
+	_, isP := fa.X.(*ParamV)
+	return isP
 }
